@@ -118,6 +118,12 @@ class DirHandler(BaseHandler):
         except OSError:
             return False
 
+        if not stat.S_ISREG(statval[stat.ST_MODE]):
+            # Something else carries the cache file's name (a FIFO would
+            # block for ever): neither read it ...
+            self.cacheunusable = True
+            return False
+
         if time.time() - statval[stat.ST_MTIME] < self.cachetime:
             try:
                 with self.vfs.open(self.cachename, "rb") as fp:
@@ -135,6 +141,9 @@ class DirHandler(BaseHandler):
             # Don't resave the cache.
             return
         if not self.vfs.iswritable(self.cachename):
+            return
+        if getattr(self, "cacheunusable", False):
+            # ... nor write to it.
             return
         try:
             with self.vfs.open(self.cachename, "wb") as fp:
